@@ -370,6 +370,25 @@ class World:
 
     def func(self, qualname):
         """'rules.ruleLatentDOM', 'types.Time.start', 'rule.rule.fwrapper.wrapper'"""
+        try:
+            return self._func(qualname)
+        except KeyError:
+            if qualname in ("rule.rule.fwrapper.wrapper", "rule.rule.fwrapper"):
+                # the two closures of the @rule decorator, found by their role when they were renamed: the decorator is the
+                # nested function that rule() returns, the wrapper the function nested in it that takes *args
+                r = self._func("rule.rule")
+                ret = [n.value.id for n in r.node.body if isinstance(n, ast.Return) and isinstance(n.value, ast.Name)]
+                decs = [n for n in r.node.body if isinstance(n, ast.FunctionDef) and n.name in ret]
+                if len(decs) == 1:
+                    dec = FuncVal(decs[0], r.module, None, qualname="rule.rule." + decs[0].name)
+                    if qualname.endswith("fwrapper"):
+                        return dec
+                    ws = [n for n in decs[0].body if isinstance(n, ast.FunctionDef) and n.args.vararg is not None]
+                    if len(ws) == 1:
+                        return FuncVal(ws[0], r.module, None, qualname=dec.qualname + "." + ws[0].name)
+            raise
+
+    def _func(self, qualname):
         parts = qualname.split(".")
         m = self.modules[SHORT[parts[0]]]
         cur = m.globals.get(parts[1])
@@ -778,6 +797,7 @@ class World:
         def _print(it, a, k):
             return None
 
+
         @reg("next")
         def _next(it, a, k):
             xs = a[0]
@@ -795,7 +815,11 @@ class World:
         B["True"] = True
         B["False"] = False
         B["None"] = None
-        B["object"] = ExtType("object")
+        def _object(it, a, k):
+            from .values import Tok
+            it.nfresh += 1
+            return Tok("object#%d" % it.nfresh)       # a fresh object: only its identity matters (sentinels)
+        B["object"] = ExtType("object", _object)
         B["property"] = ExtType("property")
 
     def node_locals(self, node):
